@@ -559,7 +559,14 @@ class Interp:
                 else:
                     va_ = heap[k]
                     if va_ is not vb_:
-                        heap[k] = s.merge_obj(ca, va_, vb_, ot[k])
+                        if isinstance(k, tuple):
+                            if k[0] == 'HASHAPPS':
+                                seen = set(id(x) for x in va_)
+                                heap[k] = va_ + tuple(x for x in vb_ if id(x) not in seen)
+                            elif va_ != vb_:
+                                raise Unmergeable()
+                        else:
+                            heap[k] = s.merge_obj(ca, va_, vb_, ot[k])
             val = tuple(merge_typed(ca, p, q, t) for p, q, t in zip(va, vb, ta))
         except Unmergeable:
             return None
